@@ -420,3 +420,13 @@ func lemmaOriginRoundTrip(p []byte) ([]byte, int) {
 //@   ensures raw: !o.Parsed ==> len(s) == len(o.Buffer) && (forall k in 0..len(s): s[k] == o.Buffer[k])
 //@   ensures encoded: o.Parsed ==> len(s) == olen(len(o.Buffer))
 //@   assigns nothing
+
+// The length of a GenBank record is the number of residues in its ORIGIN block, whatever the
+// other fields say (gts.Len relies on it: it prefers a sequence's own Len method).
+//@ func (gb GenBank) Len() (n int)
+//@   prop C02 C16 C11
+//@   requires !isnil(gb.Origin) && len(gb.Origin.Buffer) <= 1099511627776
+//@   requires !gb.Origin.Parsed ==> 0 <= nres(len(gb.Origin.Buffer)) && len(gb.Origin.Buffer) == olen(nres(len(gb.Origin.Buffer)))
+//@   ensures gb.Origin.Parsed ==> n == len(gb.Origin.Buffer)
+//@   ensures !gb.Origin.Parsed ==> n == nres(len(gb.Origin.Buffer))
+//@   assigns nothing
